@@ -466,6 +466,32 @@ def plant_outlier(rng, net):
     # every end point keeps at least two other observations (a point that loses its only observation drops out of
     # the adjustment and is printed with its approximate coordinates: not comparable between two datum choices)
     cands = [(ci, ii) for ci, ii in cands if all(deg[e] >= 3 for e in ends(net["obs"][ci], net["obs"][ci]["items"][ii]))]
+    # ... and the network must stay CONNECTED without the observation (a removed bridge of a levelling line splits a
+    # free network into a part with and a part without constrained points: not adjustable, by the property's own
+    # premise "constraint set that resolves the defect")
+
+    def connected_without(skip):
+        adj = {}
+        for ci, c in enumerate(net["obs"]):
+            for ii, it in enumerate(c["items"]):
+                if (ci, ii) == skip:
+                    continue
+                es = list(set(ends(c, it)))
+                for a in es:
+                    adj.setdefault(a, set()).update(es)
+        nodes = set(deg)
+        if not nodes:
+            return True
+        seen, todo = set(), [next(iter(nodes))]
+        while todo:
+            v = todo.pop()
+            if v in seen:
+                continue
+            seen.add(v)
+            todo += [w for w in adj.get(v, ()) if w not in seen]
+        return seen == nodes
+
+    cands = [x for x in cands if connected_without(x)]
     if not cands:
         return None
     first = [x for x in cands if x[1] == 0]
